@@ -472,6 +472,12 @@ func r4C12(c *Ctx) {
 					truncates = true
 				}
 			}
+			// or hands a list it built to a helper that truncates it
+			if call, ok := in.(*ssa.Call); ok {
+				if bi, isB := call.Call.Value.(*ssa.Builtin); isB && bi.Name() == "append" && flowsIntoTruncation(call) {
+					truncates = true
+				}
+			}
 		}
 	}
 	if !truncates {
@@ -1076,29 +1082,51 @@ func r4C07(c *Ctx) {
 		return
 	}
 	n := 0
-	for _, ret := range returnsOf(fn) {
-		if len(ret.Results) != 3 {
+	for _, f := range samePkgClosure(p, fn) {
+		if f != fn && !strings.HasPrefix(FuncName(f), "pkg/util/grace.") {
 			continue
 		}
-		for _, lf := range BoolLeaves(ret.Results[0], ret.Block()) {
-			k, ok := lf.V.(*ssa.Const)
-			if !ok || constText(k) != "true" {
+		for _, ret := range returnsOf(f) {
+			if len(ret.Results) < 2 || ret.Block() == f.Recover {
 				continue
 			}
-			if e, isC := ret.Results[2].(*ssa.Const); !isC || !e.IsNil() {
-				continue // error path: the caller requeues with back-off
+			// the wait is the time.Duration result
+			wi := -1
+			for i, r := range ret.Results {
+				if strings.HasSuffix(r.Type().String(), "time.Duration") {
+					wi = i
+				}
 			}
-			d := ret.Results[1]
-			if !BackwardSlice(d)[gs] {
-				continue // a wait computed elsewhere (remaining time of a pending expectation)
+			if wi < 0 {
+				continue
 			}
-			n++
-			fs := append(FactsAtInstr(ret), lf.Facts...)
-			nz := HasFact(fs, func(f Fact) bool {
-				return (f.Op == "!=" || f.Op == ">") && f.L.V == ssa.Value(gs) && f.R.Op == "const" && f.R.Name == "0"
-			})
-			c.Ob("R7.8", "runWithGraceSeconds#retry-with-grace-wait", ret.Pos(), nz, "retry with graceSeconds·s is answered under graceSeconds != 0",
-				ifs(!nz, "this return asks for a retry after graceSeconds seconds without having excluded graceSeconds == 0: with an explicit gracePeriodSeconds of 0 the caller stores a recheck time of now, RequeueAfter is not positive and nothing wakes the rollout up again")).WithFacts(fs)
+			for _, lf := range Leaves(ret.Results[wi], ret.Block()) {
+				// only waits computed from graceSeconds itself (graceSeconds * time.Second), not the
+				// remaining time of a pending expectation
+				bo, isMul := Forwarded(lf.V).(*ssa.BinOp)
+				if !isMul || bo.Op != token.MUL {
+					continue
+				}
+				fromGS := false
+				for x := range BackwardSlice(lf.V) {
+					if par, ok := x.(*ssa.Parameter); ok {
+						if b, ok := par.Type().Underlying().(*types.Basic); ok && b.Kind() == types.Int32 {
+							fromGS = true
+							gs = par
+						}
+					}
+				}
+				if !fromGS {
+					continue
+				}
+				n++
+				fs := append(append([]Fact{}, FactsAtInstr(ret)...), lf.Facts...)
+				nz := HasFact(fs, func(fc Fact) bool {
+					return (fc.Op == "!=" || fc.Op == ">") && fc.L != nil && fc.L.V == ssa.Value(gs) && fc.R != nil && fc.R.Op == "const" && fc.R.Name == "0"
+				})
+				c.Ob("R7.8", "runWithGraceSeconds#retry-with-grace-wait", ret.Pos(), nz, "retry with graceSeconds·s is answered under graceSeconds != 0",
+					ifs(!nz, "this return asks for a retry after graceSeconds seconds without having excluded graceSeconds == 0: with an explicit gracePeriodSeconds of 0 the caller stores a recheck time of now, RequeueAfter is not positive and nothing wakes the rollout up again")).WithFacts(fs)
+			}
 		}
 	}
 	if n == 0 {
